@@ -278,8 +278,13 @@ pub fn exec(c: &Case) -> Outcome {
         None => {
             let hung = sess.open_hung;
             let written = sess.wire.out_len();
+            let head = sess.wire.out_snapshot();
             sess.wire.push_eof();
             let _ = sess.broker.stop();
+            // the first thing a connection writes is the protocol header, exactly
+            if head.len() >= 8 && &head[..8] != b"AMQP\x00\x00\x09\x01" {
+                return Outcome::fail("protocol-header-wrong", format!("the first eight bytes written are {:?}", &head[..8]));
+            }
             if hung && !c.wscript.is_empty() {
                 return Outcome::hang(
                     "handshake-bytes-never-written",
